@@ -28,6 +28,7 @@ import E2P.Model.Graph
 import E2P.Model.Peg
 import E2P.Generated.Grammar
 import E2P.Model.Quote
+import E2P.Model.Refs
 import E2P.Generated.RuntimeConsts
 open E2P
 
@@ -537,6 +538,45 @@ def handleQuote (args : List String) : String :=
     | _ => "bad-op"
   | _ => "bad-op"
 
+/-! references: a book of `n` sheets with dims (w h); cell (s,c,r) inside holds the planted number (s+1)·10¹⁰+(c+1)·10⁵+(r+1) unless listed as a hole.
+    `rf <n> {w h} <nholes> {s c r} (mx s c1 r1 c2 r2 | cols s c1 c2 | uid s c r)` -/
+def planted (s c r : Nat) : Val := .int (((s + 1) * 10000000000 + (c + 1) * 100000 + (r + 1) : Nat) : Int)
+
+def handleRefs (args : List String) : String :=
+  match (do
+    let (n, r) ← takeNat args
+    let (dims, r) ← parseMany (fun r => do let (w, r) ← takeNat r; let (h, r) ← takeNat r; some ((w, h), r)) n r
+    let (nh, r) ← takeNat r
+    let (holes, r) ← parseMany parseUid nh r
+    some (dims, holes, r)) with
+  | none => "bad-op"
+  | some (dims, holes, rest) =>
+    let book : List SheetData := dims.mapIdx fun s (w, h) =>
+      (List.range h).map fun r => (List.range w).map fun c =>
+        if holes.any (fun u => u.sheet == s && u.col == c && u.row == r) then .blank else planted s c r
+    let encM := fun (m : List (List Val)) => " ".intercalate (encVal (.list (m.map .list)))
+    match rest.map String.toNat? with
+    | [] => "bad-op"
+    | _ =>
+      match rest with
+      | ["mx", s, c1, r1, c2, r2] =>
+        match s.toNat?, c1.toNat?, r1.toNat?, c2.toNat?, r2.toNat? with
+        | some s, some c1, some r1, some c2, some r2 => let m := encM (getMatrix book s c1 r1 c2 r2); s!"{m} | {m} | "
+        | _, _, _, _, _ => "bad-op"
+      | ["cols", s, c1, c2] =>
+        match s.toNat?, c1.toNat?, c2.toNat? with
+        | some s, some c1, some c2 => let m := encM (wholeColumns book s c1 c2); s!"{m} | {m} | "
+        | _, _, _ => "bad-op"
+      | ["cell", s, c, r] =>
+        match s.toNat?, c.toNat?, r.toNat? with
+        | some s, some c, some r => let v := " ".intercalate (encVal (fetch book s c r)); s!"{v} | {v} | "
+        | _, _, _ => "bad-op"
+      | ["uid", s, c, r] =>
+        match s.toNat?, c.toNat?, r.toNat? with
+        | some s, some c, some r => let u := encStr (uidText s c r); s!"{u} | {u} | "
+        | _, _, _ => "bad-op"
+      | _ => "bad-op"
+
 def handle (line : String) : String :=
   match tokens line with
   | "echo" :: rest =>
@@ -556,6 +596,7 @@ def handle (line : String) : String :=
   | "gr" :: rest => handleGraph rest
   | "pg" :: rest => handlePeg rest
   | "qt" :: rest => handleQuote rest
+  | "rf" :: rest => handleRefs rest
   | _ => "bad-op"
 
 partial def loop (h : IO.FS.Stream) (out : IO.FS.Stream) : IO Unit := do
